@@ -20,9 +20,9 @@ for f in ('demo.py', 'MUTANT.md'):
     open('%s/%s' % (dst, f), 'w').write(open('%s/%s' % (wt, f)).read())
 env = 'cd %s && PYTHONPATH=%s PYTHONDONTWRITEBYTECODE=1' % (wt, wt)
 d_with = run('%s timeout 120 /venv/bin/python demo.py' % env)
-run('git -C %s stash -- openhtf' % wt)
+open(dst + '/patch.diff').close(); run('git -C %s apply -R %s/patch.diff' % (wt, dst))
 d_without = run('%s timeout 120 /venv/bin/python demo.py' % env)
-run('git -C %s stash pop' % wt)
+run('git -C %s apply %s/patch.diff' % (wt, dst))
 suite = run('cd %s && /venv/bin/python -m pytest -q -p no:cacheprovider --timeout=900 --continue-on-collection-errors 2>&1 | tail -1' % wt)
 meta = dict(property=prop, demo_with_change=dict(rc=d_with.returncode, out=(d_with.stdout + d_with.stderr)[-300:]),
             demo_without_change=dict(rc=d_without.returncode, out=(d_without.stdout + d_without.stderr)[-200:]),
